@@ -268,3 +268,19 @@ Proof.
 Qed.
 
 End Emit.
+
+Lemma flat_be16_bytes ws : Forall (fun x => x < 256) (flat_map be16 ws).
+Proof.
+  induction ws as [|w r IH]; [constructor|].
+  cbn [flat_map]. unfold be16 at 1. cbn [app].
+  constructor; [lia|]. constructor; [lia|exact IH].
+Qed.
+
+Lemma emit4_bytes_ok m segs lang b :
+  M_emit4 m segs lang = Ok b -> Forall (fun x => x < 256) b.
+Proof.
+  unfold M_emit4. destruct (emit_ro m segs (N.of_nat (length segs)) 0) as [[ros gia]| | |];
+    try discriminate.
+  intros H. assert (b = flat_map be16 (emit4_words segs lang ros gia)) as -> by congruence.
+  apply flat_be16_bytes.
+Qed.
